@@ -12,7 +12,9 @@ import (
 	"path/filepath"
 	"strconv"
 	"strings"
+	"runtime"
 	"sync"
+	"sync/atomic"
 	"time"
 
 	"github.com/pgavlin/dawn"
@@ -28,8 +30,10 @@ type pevent struct {
 }
 
 type pevents struct {
-	m   sync.Mutex
-	evs []pevent
+	m      sync.Mutex
+	evs    []pevent
+	inside int32 // targets inside Evaluate (between TargetEvaluating and its return), i.e. holding a slot
+	maxIn  int32
 }
 
 func (e *pevents) add(kind string, l *label.Label, err error) {
@@ -56,6 +60,17 @@ func (e *pevents) ModuleLoadFailed(*label.Label, error)               {}
 func (e *pevents) LoadDone(error)                                     {}
 func (e *pevents) TargetUpToDate(l *label.Label)                      { e.add("uptodate", l, nil) }
 func (e *pevents) TargetEvaluating(l *label.Label, _ string, _ diff.ValueDiff) {
+	// called from inside runTarget.Evaluate, i.e. while the target holds a slot (also in a dry run, which still
+	// hashes sources and fingerprints functions): stay a moment so that targets that are allowed in overlap
+	n := atomic.AddInt32(&e.inside, 1)
+	for {
+		m := atomic.LoadInt32(&e.maxIn)
+		if n <= m || atomic.CompareAndSwapInt32(&e.maxIn, m, n) {
+			break
+		}
+	}
+	time.Sleep(300 * time.Microsecond)
+	atomic.AddInt32(&e.inside, -1)
 	e.add("evaluating", l, nil)
 }
 func (e *pevents) TargetFailed(l *label.Label, err error)     { e.add("failed", l, err) }
@@ -124,7 +139,7 @@ func (g *graph) expectFail() []bool {
 	return out
 }
 
-func childProject(seed uint64, n, maxNodes int, fixed string) int {
+func childProject(seed uint64, n, maxNodes int, fixed string, dryWide bool) int {
 	w := bufio.NewWriterSize(os.Stdout, 1<<20)
 	defer w.Flush()
 	rg := &rng{seed}
@@ -145,6 +160,19 @@ func childProject(seed uint64, n, maxNodes int, fixed string) int {
 			g = shapes[i]
 		} else {
 			g = genGraph(rg, 1+rg.below(maxNodes), 0)
+		}
+		dry := false
+		if dryWide || (fixed == "" && i%7 == 6) {
+			// a dry run of a fan-out wider than the CPU count: nothing executes, but every target is still evaluated
+			dry = true
+			k := 3*runtime.NumCPU() + 2 + rg.below(4)
+			g = &graph{n: k + 1, root: 0, deps: make([][]int, k+1), known: make([]bool, k+1), body: make([]bool, k+1)}
+			for l := 0; l <= k; l++ {
+				g.known[l], g.body[l] = true, true
+				if l > 0 {
+					g.deps[0] = append(g.deps[0], l)
+				}
+			}
 		}
 		if fixed != "" {
 			fg, err := parseParams(fixed)
@@ -169,7 +197,7 @@ func childProject(seed uint64, n, maxNodes int, fixed string) int {
 		}
 		lab, _ := label.Parse("//:t" + strconv.Itoa(g.root))
 		done := make(chan error, 1)
-		go func() { done <- proj.Run(lab, &dawn.RunOptions{Always: true}) }()
+		go func() { done <- proj.Run(lab, &dawn.RunOptions{Always: true, DryRun: dry}) }()
 		var viols []violation
 		add := func(prop, kind, detail string) { viols = append(viols, violation{Property: prop, Kind: kind, Detail: detail}) }
 		var result error
@@ -245,7 +273,18 @@ func childProject(seed uint64, n, maxNodes int, fixed string) int {
 				}
 			}
 		}
+		if m := int(atomic.LoadInt32(&evs.maxIn)); m > runtime.NumCPU() {
+			add("C09", "occupancy", fmt.Sprintf("%d targets inside Evaluate at once on %d CPUs (dry run: %v)", m, runtime.NumCPU(), dry))
+		}
 		cyclic := g.cyclicReachable()
+		if dry {
+			if result != nil {
+				add("C04", "result", fmt.Sprintf("a dry run of a fan-out failed: %v", result))
+			}
+			fmt.Fprintf(w, "C\trunner.project.dry\tgraph %s\tok\n", g.params())
+			emitMode(w, viols, g, "project-dry")
+			continue
+		}
 		if cyclic {
 			if result == nil {
 				add("C05", "cycle-not-failed", "the reachable graph has a cycle but Project.Run succeeded")
@@ -284,9 +323,11 @@ func childProject(seed uint64, n, maxNodes int, fixed string) int {
 	return 0
 }
 
-func emit(w *bufio.Writer, viols []violation, g *graph, limit int) {
+func emit(w *bufio.Writer, viols []violation, g *graph, limit int) { emitMode(w, viols, g, "project") }
+
+func emitMode(w *bufio.Writer, viols []violation, g *graph, mode string) {
 	for _, v := range viols {
-		v.Input = map[string]any{"params": g.params(), "mode": "project"}
+		v.Input = map[string]any{"params": g.params(), "mode": mode, "cpus": runtime.NumCPU()}
 		b, _ := json.Marshal(v)
 		fmt.Fprintf(w, "V\t%s\n", b)
 	}
